@@ -207,7 +207,9 @@ def gen_strategy():
     nonstr = st.sampled_from([5, 1.5, True, ('dd/mm/yyyy',)])
     dup = st.tuples(st.lists(fm, min_size=1, max_size=3), st.integers(0, 2), st.lists(st.one_of(fm, fm, bad), min_size=1, max_size=3)).map(
         lambda t: t[0] + [t[0][t[1] % len(t[0])]] + t[2])          # a repeated entry followed by further entries
-    arg = st.one_of(st.none(), fm, st.lists(fm, min_size=1, max_size=6), st.lists(fm, min_size=1, max_size=6), dup, dup,
+    import random
+    subset = st.tuples(st.integers(0, 2 ** 32), st.integers(1, 10)).map(lambda t: random.Random(t[0]).sample(FORMATS, t[1]))
+    arg = st.one_of(st.none(), fm, st.lists(fm, min_size=1, max_size=6), subset, subset, dup, dup,
                     bad, nonstr.filter(lambda x: not isinstance(x, tuple)), st.lists(st.one_of(fm, bad), min_size=1, max_size=3),
                     st.lists(st.one_of(fm, st.sampled_from([5, None])), min_size=1, max_size=3), st.just([]))
     field = st.one_of(st.sampled_from(DM), st.sampled_from(YEARS))
@@ -237,7 +239,23 @@ def shards(tier):
         out.append({'mode': 'enumerate', 'formats': fmts, 'full': not quick})
     for _ in range(4 if quick else 16):
         out.append({'mode': 'gen', 'examples': 300 if quick else 2000})
+    for k in range(2):
+        out.append({'mode': 'pairs', 'part': k, 'parts': 2})
     return out
+
+
+def pair_cases(part, parts):
+    """Every ordered pair of documented formats as a two-element list, both is_extensible settings, with one valid candidate per
+    format (plus near misses): 'one of the selected formats' must not depend on which other format is selected, or on their order."""
+    i = 0
+    for a in FORMATS:
+        for b in FORMATS:
+            if a == b:
+                continue
+            for ext in (False, True):
+                if i % parts == part:
+                    yield _add_targeted({'formats': [a, b], 'ext': ext, 'texts': ['1/1/1', '31-12-99x']})
+                i += 1
 
 
 SHARD_TIMEOUT = {'quick': 240, 'thorough': 3000}
@@ -246,6 +264,9 @@ SHARD_TIMEOUT = {'quick': 240, 'thorough': 3000}
 def run_shard(spec, ctx):
     if spec['mode'] == 'format_strings':
         run_enumeration(ctx, format_string_cases(), check_case, 'all 864 three-part format strings over {d,dd,m,mm,yy,yyyy} x separators, alone and in a list')
+        return
+    if spec['mode'] == 'pairs':
+        run_enumeration(ctx, pair_cases(spec['part'], spec['parts']), check_case, 'all ordered pairs of the 48 formats as a list x is_extensible (part)')
         return
     if spec['mode'] == 'enumerate':
         total = 0
